@@ -2258,9 +2258,13 @@ func (x *Exec) staleProbes() {
 			}
 		}
 	}
+	// (chosen by ordinal only, so that executions of the same history that recycle ids in a different order - batched
+	// and unbatched, typed and ID-based - ask about the same ordinals: the oldest and the latest removed entity, which
+	// over a history are ids that live on and ids that do not)
 	cand := append(recycled, dead...)
+	sort.Ints(cand)
 	if len(cand) > 2 {
-		cand = cand[:2]
+		cand = []int{cand[0], cand[len(cand)-1]}
 	}
 	api := "typed"
 	if x.Cfg.Path == "unsafe" {
